@@ -1,23 +1,79 @@
-import HypatiaProofs.Lemmas.Optimize
+import HypatiaProofs.Lemmas.OptimizeSound
+import HypatiaProofs.Lemmas.OptimizeExact
+import HypatiaProofs.Lemmas.QueryEndToEnd
 
 /-!
 # C05  Query optimization never changes a query's result
 
-Full statement (for every catalog `cat` and well-typed tree `q`):
+Full statement (for every catalog `cat` and every tree `q`):
 
     applyQ cat q = .ok r  →  ∃ r', applyQ cat (optimize q) = .ok r' ∧ ∀ d, d ∈ r' ↔ d ∈ r
 
 The unchanged code violates it in three recorded ways (D2, D3, D5 – witnesses proved below), so it
-cannot be proved as stated.  What is proved here, for all inputs, are the correctness of every
-rewriting step the optimiser performs (`…_step` theorems: each is the exact equation that the
-corresponding rewrite relies on, with the hypothesis that excludes the finding made explicit) and
-the structural facts; the composition of the steps over the whole tree is tied to the code by the
-correspondence run (optimised tree shapes and results are compared on every sampled tree).
-`c05_partial` is therefore the conjunction of per-step theorems, not yet the induction over the
-pairing loop.
+cannot be proved as stated.  `c05_optimize_sound_partial` / `c05_optimize_succeeds_partial` prove it for
+**every catalog and every tree of any arity and depth** under two decidable hypotheses:
+
+* `wellTyped cat q` – every comparator of the tree is one its index class implements (on other trees
+  the unoptimised execution succeeds or fails depending on evaluation order and `And._apply`'s early
+  exit; `c05_illtyped_order_witness` shows the optimiser can then turn a success into an error);
+* `OptSafe cat q` – following the optimiser down the tree, no rewrite meets D3 (a fold onto a comparator
+  the index class lacks), D2 (a fold producing `NotAll`, executed as `applyAll`) or D5 (an Or-pairing
+  into `NotInRange` on a field index that has value-less documents).  `hazards cat q` names them; each
+  excluded region contains a proved counterexample (`c05_d2_witness`, `c05_d3_witness`, `c05_d5_witness`),
+  and nothing else is excluded.
+
+The proof is an induction on the tree (through the optimiser's budget) with the loop theorem
+`pairLoop_forall` for the lowers/uppers pairing loops (invariant `LoopInv`: the processed prefix keeps its
+meaning; every `lowers`/`uppers` entry points at a live, unpaired bound of its index).  The `…_step`
+theorems below are the equations the individual rewrites rely on.
 -/
 namespace Hyp.Query
 open Hyp
+
+/-- **Optimisation preserves the answer** (same id set), outside D2/D3/D5. -/
+theorem c05_optimize_sound_partial (cat : Catalog) (q : Q) (hw : wellTyped cat q = true)
+    (hsafe : OptSafe cat q = true) : ∀ d, d ∈ val cat (optimize q) ↔ d ∈ val cat q :=
+  (optimize_sound cat q hw hsafe).2
+
+/-- **…and succeeds whenever the unoptimised execution succeeds**, with the same members. -/
+theorem c05_optimize_succeeds_partial (cat : Catalog) (q : Q) (hw : wellTyped cat q = true)
+    (hsafe : OptSafe cat q = true) (r : IdSet) (hr : applyQ cat q = .ok r) :
+    ∃ r', applyQ cat (optimize q) = .ok r' ∧ ∀ d, d ∈ r' ↔ d ∈ r := by
+  obtain ⟨h1, h2⟩ := optimize_sound cat q hw hsafe
+  refine ⟨val cat (optimize q), applyQ_val h1, fun d => ?_⟩
+  rw [h2 d]; simp [val, hr]
+
+/-- the optimised tree is again well-typed (so it can be optimised or negated again) -/
+theorem c05_optimize_well_typed_partial (cat : Catalog) (q : Q) (hw : wellTyped cat q = true)
+    (hsafe : OptSafe cat q = true) : wellTyped cat (optimize q) = true :=
+  (optimize_sound cat q hw hsafe).1
+
+/-- **Composed with C01/C02** (`c04_end_to_end`): over the index *models* after arbitrary histories of
+every index, the optimised tree succeeds where the unoptimised does and returns the same members.
+Partial for the same reason as above (`wellTyped`, `OptSafe`, evaluated on the specification tables of the
+histories). -/
+theorem c05_end_to_end_partial (hs : List IndexH) (q : Q)
+    (hw : wellTyped (specCatalog hs) q = true) (hsafe : OptSafe (specCatalog hs) q = true) :
+    ∃ r r', applyQM (modelCatalog hs) q = .ok r ∧ applyQM (modelCatalog hs) (optimize q) = .ok r' ∧
+      ∀ d, d ∈ r' ↔ d ∈ r := by
+  obtain ⟨hwo, hv⟩ := optimize_sound _ q hw hsafe
+  obtain ⟨r, hr, he⟩ := (ResEq.ok_iff (ResEq.symm (applyQM_refines hs q))).1 _ (applyQ_val hw)
+  obtain ⟨r', hr', he'⟩ := (ResEq.ok_iff (ResEq.symm (applyQM_refines hs (optimize q)))).1 _ (applyQ_val hwo)
+  exact ⟨r, r', hr, hr', fun d => by rw [← he' d, hv d, he d]⟩
+
+/-- the pairing loops (any arity): with `P` a predicate that the range node built from a matched pair
+turns into the conjunction of the pair, "all operands satisfy `P`" is unchanged by the loop -/
+theorem c05_pairing_loop (kA kB : Kind) (mk : MkRange) (P : Q → Prop) (qs : List Q)
+    (hdisj : ∀ q x y, kA q = some x → kB q = some y → False)
+    (hmk : ∀ qa ∈ qs, ∀ qb ∈ qs, ∀ idx a sa b sb, kA qa = some (idx, a, sa) → kB qb = some (idx, b, sb) →
+      (P (mk idx a sa b sb) ↔ P qa ∧ P qb)) :
+    (∀ q ∈ pairLoop (genStep kA kB mk) qs, P q) ↔ (∀ q ∈ qs, P q) :=
+  pairLoop_forall hdisj hmk
+
+/-- …of which `And._optimize`'s and `Or._optimize`'s loops are the two instances -/
+theorem c05_pairing_loop_instances :
+    andStep = genStep lowerOf upperOf mkInRange ∧ orStep = genStep upperOf lowerOf mkNotInRange :=
+  ⟨andStep_eq, orStep_eq⟩
 
 /-- `optimize` is a function of the tree: it cannot modify its argument (purity by type); the
 harness checks the Python object's structure and node identities before/after. -/
@@ -75,22 +131,114 @@ theorem c05_d4_repaired :
     optimize (.and [.cmp .gt 0 (.one 1), .cmp .lt 0 (.one 6), .cmp .lt 0 (.one 10)]) =
       .and [.range false 0 1 6 true true, .cmp .lt 0 (.one 10)] := rfl
 
-/-- D3: folding onto a comparator the index lacks – unoptimised succeeds, optimised raises -/
+/-- D3: folding onto a comparator the index lacks – unoptimised succeeds, optimised raises.  The tree
+is well-typed and D3 is the only hypothesis of the theorem it violates. -/
 theorem c05_d3_witness :
     let cat : Catalog := [.field [(1, some 1), (2, some 5), (3, some 7)]]
     let q : Q := .or [.cmp .noteq 0 (.one 5), .cmp .noteq 0 (.one 7)]
-    applyQ cat q = .ok [2, 1, 3] ∧ applyQ cat (optimize q) = .error .attributeError := ⟨rfl, rfl⟩
+    wellTyped cat q = true ∧ hazards cat q = [.d3] ∧
+      applyQ cat q = .ok [2, 1, 3] ∧ applyQ cat (optimize q) = .error .attributeError := ⟨rfl, rfl, rfl, rfl⟩
+
+/-- D3 also through `And(Eq,Eq)` → `All` on a field index -/
+theorem c05_d3_witness_and :
+    let cat : Catalog := [.field [(1, some 1), (2, some 5), (3, some 7)]]
+    let q : Q := .and [.cmp .eq 0 (.one 5), .cmp .eq 0 (.one 7)]
+    wellTyped cat q = true ∧ hazards cat q = [.d3] ∧
+      applyQ cat q = .ok [] ∧ applyQ cat (optimize q) = .error .attributeError := ⟨rfl, rfl, rfl, rfl⟩
 
 /-- D5: `Or(Lt 2, Gt 6)` → `NotInRange(2,6)` gains the value-less document 6 -/
 theorem c05_d5_witness :
     let cat : Catalog := [.field [(6, none), (3, some 7), (2, some 5), (1, some 1)]]
     let q : Q := .or [.cmp .lt 0 (.one 2), .cmp .gt 0 (.one 6)]
-    applyQ cat q = .ok [3, 1] ∧ applyQ cat (optimize q) = .ok [6, 3, 1] := ⟨rfl, rfl⟩
+    wellTyped cat q = true ∧ hazards cat q = [.d5] ∧
+      applyQ cat q = .ok [3, 1] ∧ applyQ cat (optimize q) = .ok [6, 3, 1] := ⟨rfl, rfl, rfl, rfl⟩
+
+/-- …and the same tree over the same index without the value-less document is inside the theorem -/
+example :
+    let cat : Catalog := [.field [(3, some 7), (2, some 5), (1, some 1)]]
+    let q : Q := .or [.cmp .lt 0 (.one 2), .cmp .gt 0 (.one 6)]
+    wellTyped cat q = true ∧ OptSafe cat q = true ∧ optimize q = .range true 0 2 6 false false ∧
+      applyQ cat q = .ok [3, 1] ∧ applyQ cat (optimize q) = .ok [3, 1] := ⟨rfl, rfl, rfl, rfl, rfl⟩
 
 /-- D2: `Or(NotEq,NotEq)` → `NotAll`, which executes `applyAll` -/
 theorem c05_d2_witness :
     let cat : Catalog := [.keyword [(3, some [3]), (2, some [2]), (1, some [1, 2])]]
     let q : Q := .or [.cmp .noteq 0 (.one 1), .cmp .noteq 0 (.one 2)]
-    applyQ cat q = .ok [3, 2] ∧ applyQ cat (optimize q) = .ok [1] := ⟨rfl, rfl⟩
+    wellTyped cat q = true ∧ hazards cat q = [.d2] ∧
+      applyQ cat q = .ok [3, 2] ∧ applyQ cat (optimize q) = .ok [1] := ⟨rfl, rfl, rfl, rfl⟩
+
+/-- D2 is reached through `Not` as well: `Not(And(Eq,Eq))` negates to `Or(NotEq,NotEq)` first -/
+theorem c05_d2_witness_not :
+    let cat : Catalog := [.keyword [(3, some [3]), (2, some [2]), (1, some [1, 2])]]
+    let q : Q := .not (.and [.cmp .eq 0 (.one 1), .cmp .eq 0 (.one 2)])
+    wellTyped cat q = true ∧ hazards cat q = [.d2] ∧
+      applyQ cat q = .ok [3, 2] ∧ applyQ cat (optimize q) = .ok [1] := ⟨rfl, rfl, rfl, rfl⟩
+
+/-- a `NotAll` that is already in the tree is *not* excluded: the optimiser leaves it alone and both
+executions call `applyAll` -/
+example :
+    let cat : Catalog := [.keyword [(3, some [3]), (2, some [2]), (1, some [1, 2])]]
+    let q : Q := .and [.cmp .notall 0 (.many [1, 2]), .not (.cmp .all 0 (.many [2]))]
+    wellTyped cat q = true ∧ OptSafe cat q = true := ⟨rfl, rfl⟩
+
+/-- Outside `wellTyped` (not one of the recorded findings; the check leaves such trees undetermined):
+`Contains` does not exist on a field index; unoptimised, `And`'s early exit never evaluates it; the
+pairing moves the range to the end, so the optimised tree evaluates it first. -/
+theorem c05_illtyped_order_witness :
+    let cat : Catalog := [.field [(1, some 5), (2, some 7), (3, some 9)]]
+    let q : Q := .and [.cmp .lt 0 (.one 3), .cmp .contains 0 (.one 1), .cmp .gt 0 (.one 1)]
+    wellTyped cat q = false ∧ optimize q = .and [.cmp .contains 0 (.one 1), .range false 0 1 3 true true] ∧
+      applyQ cat q = .ok [] ∧ applyQ cat (optimize q) = .error .attributeError := ⟨rfl, rfl, rfl, rfl⟩
+
+/-! ## the excluded regions are exact (for every catalog, not only on the witnesses) -/
+
+/-- D3: whenever the optimiser's result for a well-typed tree is a folded `Any/All/NotAny/NotAll` its index
+class lacks, the unoptimised execution succeeds and the optimised one raises `AttributeError` -/
+theorem c05_d3_exact (cat : Catalog) (q : Q) (hw : wellTyped cat q = true) (c : Cmp) (i : Nat) (xs : List Int)
+    (hopt : optimize q = .cmp c i (.many xs)) (hc : c = .any ∨ c = .all ∨ c = .notany ∨ c = .notall)
+    (ix : IndexT) (hi : cat[i]? = some ix) (hs : supports ix c = false) :
+    (∃ r, applyQ cat q = .ok r) ∧ applyQ cat (optimize q) = .error .attributeError :=
+  ⟨applyQ_ok cat _ q (Nat.le_refl _) hw, by rw [hopt]; exact folded_unsupported_raises cat c i xs hc ix hi hs⟩
+
+/-- D5: `Or(Lt/Le a, Gt/Ge b)` on a field index gains *every* value-less document of that index – so the
+hypothesis "the index has no value-less documents" cannot be weakened -/
+theorem c05_d5_exact (cat : Catalog) (i : Nat) (t : Field.Spec.Table Int) (hi : cat[i]? = some (.field t))
+    (d : Int) (hk : d ∈ Field.Spec.known t) (hv : Field.Spec.valueOf t d = none) (a b : Int) (s1 s2 : Bool) :
+    d ∈ val cat (optimize (.or [.cmp (upperCmp s1) i (.one a), .cmp (lowerCmp s2) i (.one b)])) ∧
+      d ∉ val cat (.or [.cmp (upperCmp s1) i (.one a), .cmp (lowerCmp s2) i (.one b)]) :=
+  valueless_gained hi d hk hv a b s1 s2
+
+/-- D2: `Or(NotEq,…,NotEq)` on a keyword/facet index is folded to `NotAll`; on every document the index
+knows, the optimised answer is the opposite of the unoptimised one -/
+theorem c05_d2_exact (cat : Catalog) (i : Nat) (t : AMap Int (Option (List Int)))
+    (hi : cat[i]? = some (.keyword t)) (qs : List Q) (xs : List Int)
+    (h : foldSame .noteq qs = some (i, xs)) (d : Int) (hk : d ∈ kwKnown t) :
+    d ∈ val cat (optimize (.or qs)) ↔ d ∉ val cat (.or qs) :=
+  notall_fold_flips hi h d hk
+
+/-! ## non-vacuity of `c05_optimize_sound_partial` -/
+
+/-- four range bounds on one index plus one on another, contradictory bounds, nested `Not` over `Or`,
+a keyword fold – inside the hypotheses, and the optimiser really rewrites the tree -/
+example :
+    let cat : Catalog := [.field [(1, some 1), (2, some 5), (3, some 7), (4, none)],
+                          .keyword [(1, some [1, 2]), (2, some [2]), (3, some [3])],
+                          .field [(1, some 3), (2, some 4)]]
+    let q : Q := .and [.cmp .gt 0 (.one 0), .cmp .lt 0 (.one 6), .cmp .lt 0 (.one 10), .cmp .ge 0 (.one 5),
+                       .cmp .le 2 (.one 4),
+                       .not (.or [.cmp .lt 0 (.one 2), .not (.or [.cmp .eq 1 (.one 2), .cmp .eq 1 (.one 3)])])]
+    wellTyped cat q = true ∧ OptSafe cat q = true ∧
+      optimize q = .and [.range false 0 0 6 true true, .range false 0 5 10 false true, .cmp .le 2 (.one 4),
+                         .cmp .ge 0 (.one 2), .cmp .any 1 (.many [2, 3])] ∧
+      applyQ cat q = .ok [2] ∧ applyQ cat (optimize q) = .ok [2] := ⟨rfl, rfl, rfl, rfl, rfl⟩
+
+/-- contradictory bounds (`lo > hi`) and an Or-pairing on an index whose documents all have values -/
+example :
+    let cat : Catalog := [.field [(1, some 1), (2, some 5), (3, some 7)]]
+    let q : Q := .or [.and [.cmp .gt 0 (.one 6), .cmp .lt 0 (.one 2)],
+                      .cmp .le 0 (.one 1), .cmp .ge 0 (.one 7), .cmp .gt 0 (.one 100)]
+    wellTyped cat q = true ∧ OptSafe cat q = true ∧
+      optimize q = .or [.range false 0 6 2 true true, .range true 0 1 7 true true, .cmp .gt 0 (.one 100)] ∧
+      applyQ cat q = .ok [3, 1] ∧ applyQ cat (optimize q) = .ok [1, 3] := ⟨rfl, rfl, rfl, rfl, rfl⟩
 
 end Hyp.Query
